@@ -31,12 +31,12 @@ for _o in (1, 2, 59, 60, 365, 366, 730119, 735000, 3652059):
 
 # ----------------------------------------------------------------------------- JSON
 ATOMS = [None, True, False, 0, -0.5, 1e21, 123456789012, 5e-324, 1.7976931348623157e308, 0.1, -3,
-         '', 'a', '"\\/\b\f\n\r\t', '\u0001', 'é', '\U0001F600', 'a"b', ' ', '\x7f']
-KEYS = ['', 'k', 'é', 'a"b']
+         '', 'a', '"\\/\b\f\n\r\t', '\u0001', 'é', '\U0001F600', 'a"b', ' ', '\x7f', '\x1f', 'a\x1fb', '\x00', '\x1e', '\x19']
+KEYS = ['', 'k', 'é', 'a"b', '\x1f', '\x01k']
 
 
 def docs(depth, tier):
-    atoms = ATOMS if tier != 'quick' else ATOMS[:14]
+    atoms = ATOMS if tier != 'quick' else ATOMS[:14] + ATOMS[-5:]
     level = list(atoms)
     out = list(level)
     for d in range(depth):
@@ -233,6 +233,15 @@ def frac_cases(tier):
             out.append({'sig': 'C20|fraction-ctor|%d/%d' % (n, d), 'src': 'let f = %s; (f::n, f::d)' % src, 'exp': ERR})
             continue
         out.append({'sig': 'C20|fraction-ctor|%d/%d' % (n, d), 'src': 'let f = %s; (f::n, f::d)' % src, 'exp': fx(Fraction(n, d))})
+    # numerator and denominator share a factor beyond 64 bits: the reduced parts are small again and must BE the small integers
+    for g in (1 << 63, 1 << 64, 1 << 70, 3 ** 50, (1 << 63) - 1, (1 << 127) + 1):
+        for (n0, d0) in ((3, 5), (-3, 5), (1, 1), (0, 7), (7, 1), (2, 4)):
+            F = Fraction(n0 * g, d0 * g)
+            src = 'fraction(%s, %s)' % (xint(n0 * g), xint(d0 * g))
+            out.append({'sig': 'C20|fraction-big-gcd|%d*%d/%d*%d' % (n0, g, d0, g),
+                        'src': 'let f = %s; (f::n == %d, f::d == %d, f == fraction(%d, %d), hash(f) == hash(fraction(%d, %d)), 7 %% f::d, (f::n, f::d))' % (
+                            src, F.numerator, F.denominator, F.numerator, F.denominator, F.numerator, F.denominator),
+                        'exp': (True, True, True, True, 7 % F.denominator, fx(F))})
     base = [(1, 2), (-3, 7), (0, 1), (5, 1), ((1 << 62) + 1, 3), (-(1 << 64), (1 << 31)), ((1 << 70) - 1, 1 << 64), (2, -6)]
     if tier == 'quick':
         base = base[:6]
